@@ -37,6 +37,20 @@ CHECKS['C19'] = dict(
         'Effective SFP click below one turn. An explicit zero-length Distance as SFP calibration distance is not required to be rejected (only None / bare 0).',
    ref='3/C19')
 
+CHECKS['C16'] = dict(
+   text='Real HitResult.danger_space on fully symbolic trajectories (N real rows with symbolic strictly increasing distances and arbitrary symbolic drops), symbolic request and target height: '
+        'every path of the scans is explored (loops unroll to N) and z3 decides bracketing, the within-half-height claim for every row between the bounds, the bound conditions, monotonicity in the '
+        'height (second call) and the error paths, for all values.',
+   note='Bound: N <= 5 rows quick / 7 thorough (longer trajectories outside). The request and the height are compared as the real unit code reads them (unit factors are C06). '
+        'Floats as reals (order-only code). The trajectory need not come from the solver: any row list is covered.',
+   ref='3/C16')
+CHECKS['C20'] = dict(
+   text='Real helpers.* (through the C implementation of bisect, which only uses rich comparisons on the symbolic rows) and HitResult.index_at_distance/get_at_distance on symbolic trajectories with '
+        'non-decreasing times/distances (repeats allowed): on every path the result equals the sequential-scan / argmin oracle written in the harness; sentinels and errors when nothing qualifies.',
+   note='Bound: N = 0..5 rows quick / 0..8 thorough. Apex helper under the documented strict single-peak assumption. `e.time - time >= 0` treated as `e.time >= time` (finite doubles). '
+        'Distance queries compare the values the real unit code reports in the query unit.',
+   ref='3/C20')
+
 NOT_YET = {}
 
 def main():
